@@ -208,6 +208,8 @@ struct Drv<S: Scenario> {
     world: Rc<RefCell<Option<S>>>,
     root: Rc<RootState>,
     choices: Vec<u16>,
+    /// alternative to `choices`: event labels to apply in order ("!" prefix = inject while runnable)
+    script: Option<RefCell<std::collections::VecDeque<String>>>,
     max_polls: u64,
     rec: Arc<Mutex<ExecRecord>>,
 }
@@ -347,7 +349,54 @@ impl<S: Scenario> Driver for Drv<S> {
                     continue;
                 }
             }
-            let c = if next_choice < self.choices.len() { self.choices[next_choice] } else { 0 };
+            let mut c = if next_choice < self.choices.len() { self.choices[next_choice] } else { 0 };
+            if let Some(script) = &self.script {
+                let mut q = script.borrow_mut();
+                c = 0;
+                if let Some(want) = q.front().cloned() {
+                    let (inject, name) = match want.strip_prefix('!') {
+                        Some(n) => (true, n.to_string()),
+                        None => (false, want.clone()),
+                    };
+                    let pos = evs.iter().position(|e| format!("{e:?}") == name);
+                    if quiescent {
+                        match pos {
+                            Some(i) if !inject => {
+                                c = i as u16;
+                                q.pop_front();
+                            }
+                            _ => {
+                                drop(q);
+                                drop(wg);
+                                self.finish(Verdict::Machinery(format!("script event {want} not enabled at quiescent point; enabled: {evs:?}")));
+                                finishing = true;
+                                continue;
+                            }
+                        }
+                    } else if inject {
+                        if let Some(i) = pos {
+                            c = i as u16 + 1;
+                            q.pop_front();
+                        }
+                    }
+                } else if quiescent {
+                    // script exhausted: stop here (drain + final oracle)
+                    c = u16::MAX;
+                }
+            }
+            if c == u16::MAX {
+                if world.drain() {
+                    continue;
+                }
+                let v = match world.finish() {
+                    Ok(o) => Verdict::Ok(o),
+                    Err(v) => Verdict::Violation(v),
+                };
+                drop(wg);
+                self.finish(v);
+                finishing = true;
+                continue;
+            }
             next_choice += 1;
             {
                 let mut r = self.rec.lock().unwrap();
@@ -393,7 +442,7 @@ impl<S: Scenario> Driver for Drv<S> {
 }
 
 /// Body of one execution on the current thread. Returns true if it unwound (panicked).
-fn exec_here<S: Scenario>(cfg: &S::Cfg, choices: &[u16], max_polls: u64, rec: &Arc<Mutex<ExecRecord>>) -> bool {
+fn exec_here<S: Scenario>(cfg: &S::Cfg, choices: &[u16], script: Option<Vec<String>>, max_polls: u64, rec: &Arc<Mutex<ExecRecord>>) -> bool {
     IN_EXEC.with(|c| c.set(true));
     REC.with(|r| *r.borrow_mut() = Some(rec.clone()));
     POLLS.with(|p| p.set(0));
@@ -405,7 +454,7 @@ fn exec_here<S: Scenario>(cfg: &S::Cfg, choices: &[u16], max_polls: u64, rec: &A
         let rt = Runtime::builder().event_interval(1).build(Box::new(NoNotify));
         let world: Rc<RefCell<Option<S>>> = Rc::new(RefCell::new(None));
         let root = Rc::new(RootState { done: Cell::new(false), waker: RefCell::new(None) });
-        let drv = Drv::<S> { world: world.clone(), root: root.clone(), choices, max_polls, rec: rec2 };
+        let drv = Drv::<S> { world: world.clone(), root: root.clone(), choices, script: script.map(|v| RefCell::new(v.into())), max_polls, rec: rec2 };
         let w2 = world.clone();
         let r2 = root.clone();
         let fut = async move {
@@ -454,7 +503,22 @@ pub fn run_one<S: Scenario>(cfg: &S::Cfg, choices: &[u16], max_polls: u64) -> Ex
     let choices = choices.to_vec();
     let h = std::thread::Builder::new()
         .stack_size(4 << 20)
-        .spawn(move || exec_here::<S>(&cfg, &choices, max_polls, &rec2))
+        .spawn(move || exec_here::<S>(&cfg, &choices, None, max_polls, &rec2))
+        .expect("spawn execution thread");
+    let panicked = h.join().unwrap_or(true);
+    seal(rec, panicked)
+}
+
+/// Run the schedule given by event labels (debugging, seeded demonstrations) on a fresh thread.
+pub fn run_script<S: Scenario>(cfg: &S::Cfg, labels: &[String], max_polls: u64) -> ExecRecord {
+    global_init();
+    let rec = Arc::new(Mutex::new(ExecRecord::default()));
+    let rec2 = rec.clone();
+    let cfg = cfg.clone();
+    let labels = labels.to_vec();
+    let h = std::thread::Builder::new()
+        .stack_size(4 << 20)
+        .spawn(move || exec_here::<S>(&cfg, &[], Some(labels), max_polls, &rec2))
         .expect("spawn execution thread");
     let panicked = h.join().unwrap_or(true);
     seal(rec, panicked)
@@ -464,7 +528,7 @@ pub fn run_one<S: Scenario>(cfg: &S::Cfg, choices: &[u16], max_polls: u64) -> Ex
 pub fn run_reused<S: Scenario>(cfg: &S::Cfg, choices: &[u16], max_polls: u64) -> (ExecRecord, bool) {
     global_init();
     let rec = Arc::new(Mutex::new(ExecRecord::default()));
-    let panicked = exec_here::<S>(cfg, choices, max_polls, &rec);
+    let panicked = exec_here::<S>(cfg, choices, None, max_polls, &rec);
     (seal(rec, panicked), panicked)
 }
 
